@@ -66,6 +66,10 @@ func (pf *ZKProof) Verify(Session []byte, X *crypto.ECPoint) bool {
 		cHash := common.SHA512_256i_TAGGED(Session, X.X(), X.Y(), g.X(), g.Y(), pf.Alpha.X(), pf.Alpha.Y())
 		c = common.RejectionSample(q, cHash)
 	}
+	// t = 0 or c = 0 (mod q) would need the point at infinity, which ECPoint cannot hold
+	if c.Sign() == 0 || new(big.Int).Mod(pf.T, q).Sign() == 0 {
+		return false
+	}
 	tG := crypto.ScalarBaseMult(ec, pf.T)
 	Xc := X.ScalarMult(c)
 	aXc, err := pf.Alpha.Add(Xc)
@@ -120,9 +124,16 @@ func (pf *ZKVProof) Verify(Session []byte, V, R *crypto.ECPoint) bool {
 		cHash := common.SHA512_256i_TAGGED(Session, V.X(), V.Y(), R.X(), R.Y(), g.X(), g.Y(), pf.Alpha.X(), pf.Alpha.Y())
 		c = common.RejectionSample(q, cHash)
 	}
+	// t, u or c = 0 (mod q) would need the point at infinity, which ECPoint cannot hold
+	if c.Sign() == 0 || new(big.Int).Mod(pf.T, q).Sign() == 0 || new(big.Int).Mod(pf.U, q).Sign() == 0 {
+		return false
+	}
 	tR := R.ScalarMult(pf.T)
 	uG := crypto.ScalarBaseMult(ec, pf.U)
-	tRuG, _ := tR.Add(uG) // already on the curve.
+	tRuG, err := tR.Add(uG)
+	if err != nil {
+		return false
+	}
 
 	Vc := V.ScalarMult(c)
 	aVc, err := pf.Alpha.Add(Vc)
